@@ -135,6 +135,15 @@ add("C15", "Cli.tla models the three arms of bin/src/main.rs as implemented (whi
     "contributes no section. Labels with operator characters under biodivine/hybrid are the listed known finding F9.",
     "TLA+ model of the CLI arms model-checked over the flag space; TLC trace validation of real CLI runs against definitional semantics", "6/C15")
 
+add("C12", "The cargo features are CONSTANTS of the store model (RobddOps): TLC closes the two-variable state graph under each store-relevant setting "
+    "(no variable lists; ad-hoc model counting; no counting). The harness is rebuilt from /repo under each feature combination (quick: 4, thorough: all 11 "
+    "non-default ones) and runs the same seeded workload as the default build (every semantics variant, store operations with all queries in varying order, "
+    "call histories); every build's trace is validated with the same Trace modules (model constants matching the build) and compared record by record with "
+    "the default build's answers by TLC, the documented memoisation exception being keyed on the logged feature set.",
+    "Trusted: TLC evaluating the Trace modules; cargo forwarding the harness features to adf_bdd. The frontend feature only adds the streaming API (C19); "
+    "its absence is covered by building and running the whole workload without it.",
+    "TLA+ store model model-checked per feature constant setting; TLC trace validation of the same workload under each feature build + TLC record-by-record comparison with the default build", "6/C12")
+
 def main():
     hooks = subprocess.run(["git", "-C", "/repo", "log", "--format=%H %s"], stdout=subprocess.PIPE, text=True).stdout.splitlines()
     hook_commits = [l.split()[0] for l in hooks if " verif hook" in l]
